@@ -178,6 +178,23 @@ fn check(ctx: &Ctx, m: &ModelGame, label: &str, counting: bool) -> Result<(), Fa
 			Fail::new(format!("op=rowview {}", key), format!("v{}.{} frame index {}: {}", m.version.0, m.version.1, i, e)).with_file("slp", &bytes).with_detail(m.summary())
 		})?;
 	}
+	// the game::Game trait view of the finished game agrees with its fields
+	if format!("{:?}", GameTrait::start(&g)) != format!("{:?}", g.start) || format!("{:?}", GameTrait::end(&g)) != format!("{:?}", g.end) || GameTrait::len(&g) != g.frames.len() || GameTrait::metadata(&g) != &g.metadata || GameTrait::gecko_codes(&g) != &g.gecko_codes {
+		return Err(Fail::new("op=rowview trait_accessors", "game::Game accessors disagree with the game's fields").with_file("slp", &bytes));
+	}
+	// the finished representation also comes out of the .slpp reader: same row views there
+	if (bytes.len() + m.frames.len()) % 4 == 0 && !m.ports.is_empty() {
+		let p = rt::slpp_write(g, rt::Comp::ALL[bytes.len() % 3]).expect_ok("peppi::write").map_err(|f| f.with_file("slp", &bytes))?;
+		let g2 = rt::slpp_read(&p, false).expect_ok("peppi::read").map_err(|f| f.with_file("slp", &bytes))?;
+		let view2 = view_immutable(&g2.frames);
+		for i in 0..g2.frames.len() {
+			let row = rt::guard(|| Ok::<_, String>(g2.frame(i))).expect_ok("Game::frame(.slpp game)").map_err(|f| f.with_file("slp", &bytes))?;
+			row_matches(&row, &view2, i, version).map_err(|e| Fail::new("op=rowview slpp_game", format!("v{}.{} frame index {} of the game read from .slpp: {}", m.version.0, m.version.1, i, e)).with_file("slp", &bytes))?;
+		}
+		if counting {
+			ctx.class("rows_of_slpp_read_game");
+		}
+	}
 	inprogress(&bytes, m)
 }
 
